@@ -22,7 +22,8 @@ RULE = (
     "through a PATH shim that wraps the child's request function and pipe communicator with a message counter and a fault "
     "injector). (a) trace equality: a configuration alphabet {slsqp plain; with bounds + linear + non-linear constraints; "
     "mask; small max_functions; NaN at evaluation k (TOO_FEW_REALIZATIONS); user abort at evaluation k; nelder-mead; "
-    "differential_evolution(seed)} is run in-process and as external/<method>: evaluator request bytes, result bytes and "
+    "differential_evolution(seed); two optimizations run one after the other in the same process with 'external/scipy/<method>' "
+    "names} is run in-process and as external/<method>: evaluator request bytes, result bytes and "
     "exit code must be equal. (b) crash points: with M messages exchanged in the baseline run, for EVERY m <= M the child is "
     "killed (SIGKILL / SIGTERM / exit 3) before it sends request m / after it receives answer m, and the optimizer inside the child "
     "raises at m (error-report path). (c) the parent's evaluator raises ValueError at EACH evaluation. (d) one 'pending' "
@@ -48,12 +49,17 @@ HORIZON = 120
 
 def worker_config(name: str, external: bool) -> dict[str, Any]:
     method = {"nelder-mead": "nelder-mead", "de": "differential_evolution"}.get(name.split(":")[0], "slsqp")
+    flags = name.split(":")[1:]
+    method_string = ("external/" if external else "") + ("scipy/" if "3part" in flags else "") + method
     config: dict[str, Any] = {
         "variables": {"initial_values": [0.5, -0.25, 1.0]},
         "realizations": {"weights": [1.0, 2.0]},
         "gradient": {"number_of_perturbations": 2, "perturbation_magnitudes": 0.05, "seed": 3},
-        "optimizer": {"method": ("external/" if external else "") + method, "options": {"maxiter": 2}},
+        "optimizer": {"method": method_string, "options": {"maxiter": 2}},
     }
+    if "rms0" in flags:
+        config["realizations"]["realization_min_success"] = 0
+        config["optimizer"]["max_functions"] = 6
     if method == "nelder-mead":
         config["optimizer"]["options"] = {"maxiter": 4}
     if method == "differential_evolution":
@@ -85,9 +91,25 @@ def worker(case: dict[str, Any]) -> dict[str, Any]:
     from ropt.plan import OptimizerContext, Plan
     from ropt.plugins.optimizer import external as ext
 
+    if "+" in case["config"]:
+        # several optimizations one after the other in the SAME process; the traces are concatenated
+        merged: dict[str, Any] = {"code": [], "exception": [], "trace": [], "evaluations": 0, "alive": [], "wall": 0.0, "runner_pids": 0}
+        for part in case["config"].split("+"):
+            sub = worker({**case, "config": part})
+            merged["code"].append(sub["code"])
+            merged["exception"].append(sub["exception"])
+            merged["trace"] += [["run", part]] + sub["trace"]
+            merged["evaluations"] += sub["evaluations"]
+            merged["alive"] += sub["alive"]
+            merged["wall"] += sub["wall"]
+            merged["runner_pids"] = max(merged["runner_pids"], sub.get("runner_pids", 0))
+        merged["code"] = "+".join(str(c) for c in merged["code"])
+        merged["exception"] = None if not any(merged["exception"]) else "+".join(str(e) for e in merged["exception"])
+        return merged
     name = case["config"]
     external = case["external"]
     config = worker_config(name, external)
+    nan_at = next((int(f[3:]) for f in name.split(":")[1:] if f.startswith("nan")), None)
     n_con = 1 if "nonlinear_constraints" in config else 0
     trace: list[Any] = []
     state = {"evals": 0}
@@ -110,7 +132,7 @@ def worker(case: dict[str, Any]) -> dict[str, Any]:
             objectives[i, 0] = float((x - np.array([0.25, 0.5, -0.5])) @ (x - np.array([0.25, 0.5, -0.5]))) * (1 + 0.5 * r) + 0.125 * r
             if constraints is not None:
                 constraints[i, 0] = float(x[0] + 2 * x[2]) + r
-        if fault.get("side") == "evaluator" and fault.get("kind") == "nan" and fault.get("at") == k:
+        if (fault.get("side") == "evaluator" and fault.get("kind") == "nan" and fault.get("at") == k) or nan_at == k:
             objectives[:, 0] = np.nan
         trace.append(["call", variables.tobytes().hex(), context.realizations.tobytes().hex(),
                       None if context.perturbations is None else context.perturbations.tobytes().hex(), objectives.tobytes().hex()])
@@ -298,6 +320,11 @@ def shards(tier: str, seed: int) -> list[dict[str, Any]]:
     equal = ["slsqp", "slsqp:constraints", "de", "slsqp:relative"] if quick else EQUAL_CONFIGS
     for name in equal:
         out.append({"kind": "equal", "config": name, "external": True})
+    # two optimizations in one process: what the first one leaves behind must not change the second
+    out.append({"kind": "equal", "config": "de:3part+slsqp:3part:rms0:nan1", "external": True})
+    if not quick:
+        out.append({"kind": "equal", "config": "slsqp:3part:rms0:nan1+de:3part", "external": True})
+        out.append({"kind": "equal", "config": "slsqp+slsqp:constraints", "external": True})
     for name, k in (("slsqp", 1), ("slsqp", 0)) if quick else (("slsqp", 0), ("slsqp", 1), ("slsqp:constraints", 2), ("de", 3)):
         out.append({"kind": "equal", "config": name, "external": True, "fault": {"side": "evaluator", "kind": "nan", "at": k}})
         out.append({"kind": "equal", "config": name, "external": True, "fault": {"side": "evaluator", "kind": "abort", "at": k}})
